@@ -57,6 +57,9 @@ def _configs():
                             model_parameters={"lambda_": lam} if lam else {},
                         )
                         out.append((cfg, n))
+    # an interval level whose quantiles (0.025 / 0.975) need a third decimal
+    for pm, n in (("nonparametric", 44), ("gaussian", 16)):
+        out.append((E.make_cfg(pi_method=pm, estimands=["turnout"], alphas=[0.95], features=[E.FEATURE], aggregates=["postal_code", "county_fips", "unit"], model_parameters={"lambda_": 0.5}), n))
     # fixed effects with a level that a single reporting unit carries: in some fits that unit is a calibration unit and the
     # level's dummy column is all zero on the training rows (the design matrix is then singular - expected, not fatal)
     for pm, n in (("nonparametric", 14), ("gaussian", 16)):
